@@ -1,0 +1,27 @@
+//go:build verif
+
+// Package verifhook provides scheduling points for the verification harness in /verif.
+package verifhook
+
+import (
+	"context"
+	"sync/atomic"
+)
+
+var handler atomic.Pointer[func(ctx context.Context, point string)]
+
+// Set installs (or, with nil, removes) the harness' scheduler callback.
+func Set(f func(ctx context.Context, point string)) {
+	if f == nil {
+		handler.Store(nil)
+		return
+	}
+	handler.Store(&f)
+}
+
+// Yield hands control to the harness' scheduler, if one is installed.
+func Yield(ctx context.Context, point string) {
+	if h := handler.Load(); h != nil {
+		(*h)(ctx, point)
+	}
+}
